@@ -3,6 +3,7 @@
 Three legs on every generated collection (see DESIGN section 5, C11):
   leg 1  the text written by ``collection_to_gff3`` is read by an independent GFF3 reader (``c11_gff``) and compared with the
          rows that the source specification must produce (``c11_model.expected_forest``);
+  (legs 2 and 3 run on collections without feature collections only: the property's quantifier lists gene models)
   leg 2  the file is parsed back with ``parse_standard_gff3`` / ``parse_gff3_embedded_fasta`` and every gene is compared with
          the source (exons, CDS blocks, frames, strand, identifiers, biotypes, qualifiers, attached sequence);
   leg 3  F1 = export(C), C2 = parse(F1), F2 = export(C2), C3 = parse(F2), F3 = export(C3): the gene comparison holds on the
@@ -38,20 +39,26 @@ RULE = (
     "all gene pairs (+ feature collection); feature collections; qualifier keys and values = all 342 strings of length 1-2 over "
     "the 18-atom special-character alphabet in 5 positions and on all identifier fields; reserved keys x flag; missing "
     "identifiers; biotype combinations; FASTA line-width boundary; multi-sequence files; refused flag combinations. Every exported "
-    "text is decoded by an independent reader and compared with a model of the rows (leg 1), re-parsed by the library (leg 2) and "
-    "driven twice through export/parse (leg 3). Non-trivial = >=2 blocks, minus strand, coding, chunk mode or special characters."
+    "text is decoded by an independent reader and compared with a model of the rows (leg 1); collections without feature collections "
+    "are also re-parsed by the library (leg 2) and driven twice through export/parse (leg 3). The quick tier runs legs 2/3 on a stated "
+    "sub-family (see world description). Non-trivial = >=2 blocks, minus strand, coding, chunk mode or special characters."
 )
 ASSUMPTIONS = [
     "compatibility layer vlib/compat (marshmallow 4 / Biopython 1.88 shims) is part of the trusted base: io.models and the GFF3 parser do not import without it",
     "collections are built through AnnotationCollectionModel.Schema().load(spec).to_annotation_collection(parent), the route the parsers use",
     "a fresh collection object is built for every export (to_gff merges parent qualifiers into the children's sets, which is C10's subject)",
     "the strand column of container rows (gene, biological_region) is only required to be a valid symbol: the data model gives containers no strand",
-    "a source identifier that is None is 'unspecified': whatever the parser infers for it (e.g. the locus tag as transcript id) is accepted, and "
-    "the qualifiers provided_biotype / provided_transcript_biotype=unspecified are accepted when the source biotype is None",
+    "a source identifier or biotype that is None is 'unspecified': whatever the parser infers for it (the locus tag as transcript id, the gene's "
+    "biotype for a transcript without one, ...) is accepted, and so are the qualifiers provided_biotype / provided_transcript_biotype=unspecified",
     "legs 2 and 3 exclude strings containing ',' or '\"' (gffutils cannot carry them; excluded by the property statement)",
     "chunk-relative mode is exercised with windows that contain every interval of the collection",
     "literal '&' and non-ASCII characters in column 9 are accepted unescaped (they decode to themselves; the statement asks for decodability only)",
-    "leg 2 compares genes only (the statement says 'for every gene'); feature collections are covered by leg 1 and by the file fixpoint of leg 3",
+    "the quantifier of the property lists gene models only: legs 2 and 3 (library re-parse, fixpoint) run only on collections WITHOUT feature "
+    "collections; collections with feature collections are checked by leg 1 (syntax and row model) alone",
+    "observations outside the statement (not checked, not findings): the GFF3 parser takes the row ID as feature_collection_id and adds the container "
+    "row types to feature_type, so files with a feature collection never reach an export/parse fixpoint; a feature collection with features on both "
+    "strands cannot be parsed back (GFF3ChildParentMismatchError); subregion rows are never read, so multi-block features come back as their span and "
+    "the features of one collection are merged into one",
 ]
 NSH = 64
 GENE_TYPES = ("gene", "transcript", "exon", "CDS")
@@ -262,7 +269,7 @@ def compare_genes(res, case, exp, obs, dup, hop, strict_none=False):
     for e, o in pairs:
         for f in FIELDS_GENE:
             n += 1
-            if e[f] is None and not strict_none and f != "gene_type":
+            if e[f] is None and not strict_none:
                 continue
             if o[f] != e[f]:
                 dev("parse-" + f, o[f], e[f], gene_type=e["gene_type"])
@@ -279,7 +286,7 @@ def compare_genes(res, case, exp, obs, dup, hop, strict_none=False):
         for et, ot in tp:
             for f in FIELDS_TX:
                 n += 1
-                if et[f] is None and f not in ("cds", "frames", "transcript_type") and not strict_none:
+                if et[f] is None and f not in ("cds", "frames") and not strict_none:
                     continue
                 if f in ("protein_id", "product") and et["cds"] is None:
                     continue
@@ -341,8 +348,8 @@ def compare_files(res, case, f2, f3):
         res.deviation("leg3", case, g3["fasta_lines"][:4], g2["fasta_lines"][:4], sig="fixpoint-fasta")
     if R.rows_by_start(g2) == R.rows_by_start(g3):
         return True
-    # classify the disagreement, separately for the gene rows and the feature-collection rows
-    for gene_part, label in ((True, "gene"), (False, "feature")):
+    # classify the disagreement (files that reach leg 3 contain gene rows only; anything else is reported under 'other')
+    for gene_part, label in ((True, "gene"), (False, "other")):
         a, b = split_rows(g2, gene_part), split_rows(g3, gene_part)
         if R.rows_by_start(a) == R.rows_by_start(b):
             continue
@@ -395,7 +402,6 @@ def run_case(res, case):
     parent, crc, fasta, rra, legs = case["parent"], case["crc"], case["fasta"], case["rra"], case["legs"]
     is_chunk = isinstance(parent, list)
     off = parent[1] if (is_chunk and not crc) else 0
-    fam = case["family"]
     colls = [build(s, parent, gn) for s, gn in zip(specs, genomes)]
     refusal = expected_refusal(case, specs)
     o = lib.outcome(export, colls, fasta, crc, rra)
@@ -417,6 +423,10 @@ def run_case(res, case):
     if is_nontrivial(case, specs):
         res.nontriv((specs, parent, crc, fasta))
     g1 = leg1_file(res, case, f1, specs, genomes, warns, off)
+    if any(s.get("feature_collections") for s in specs):
+        # the quantifier of the property lists gene models only: feature collections are checked by leg 1 alone
+        res.note("legs", "feature-collection:leg1-only")
+        return
     if g1 is None or 2 not in legs:
         return
     # ---- leg 2 ---------------------------------------------------------------------------------------------------------------
@@ -539,101 +549,10 @@ def replay(case):
     return res.deviations
 
 
-# ---- matchers of recorded library defects (each accepts only its own input class AND its own wrong-answer shape) -----------------
-import re as _re
-
-_ENCODED_CHARS = set("\t;=\n\r> %")
-_UUID = _re.compile(r"^[0-9a-f]{8}-[0-9a-f]{4}-[0-9a-f]{4}-[0-9a-f]{4}-[0-9a-f]{12}$")
-
-
+# ---- matcher of the one recorded library defect (accepts only its own input class AND its own wrong-answer shape) ----------------
 def _specs(d):
     c = d["case"]
     return c.get("specs") or [c["spec"]]
-
-
-def _qualifier_keys(d):
-    keys = set()
-    for s in _specs(d):
-        for g in s.get("genes") or []:
-            keys.update((g.get("qualifiers") or {}).keys())
-            for t in g["transcripts"]:
-                keys.update((t.get("qualifiers") or {}).keys())
-        for fc in s.get("feature_collections") or []:
-            keys.update((fc.get("qualifiers") or {}).keys())
-            for f in fc["feature_intervals"]:
-                keys.update((f.get("qualifiers") or {}).keys())
-    return keys
-
-
-def m_tx_biotype_from_gene(d):
-    """B15: the transcript's biotype is read from the gene row -> every transcript comes back with the gene's biotype"""
-    return d["sig"] == "hop1-parse-transcript_type" and d["observed"] == d.get("gene_type") and d["expected"] != d["observed"]
-
-
-def m_key_not_decoded(d):
-    """B16: a qualifier key that needs percent-encoding comes back still encoded, and is encoded once more by every export"""
-    if not any(set(k) & _ENCODED_CHARS for k in _qualifier_keys(d)):
-        return False
-    return bool(_re.match(r"^hop[12]-parse-(gene|transcript)-qualifiers-key-still-encoded$", d["sig"])) or d["sig"] in (
-        "fixpoint-gene-key-reencoded", "fixpoint-feature-key-reencoded")
-
-
-def m_chunk_fasta_name(d):
-    """chunk-relative export with FASTA: the FASTA record is named '<seq>:<a>-<b>' while column 1 says '<seq>'"""
-    c = d["case"]
-    if not (isinstance(c["parent"], list) and c["fasta"] and not c["crc"]):
-        return False
-    names = sorted(s["sequence_name"] for s in _specs(d))
-    chunk_names = [f"{n}:{c['parent'][1]}-{c['parent'][2]}" for n in names]
-    if d["sig"] == "F1-fasta-name-not-seqid":
-        return d["observed"] == chunk_names and d["expected"] == names
-    if d["sig"] == "hop1-parse-raises-KeyError":
-        return d["observed"] in [f"KeyError: '{n}'" for n in names]
-    return False
-
-
-def _has_feature_collection(d):
-    return any(s.get("feature_collections") for s in _specs(d))
-
-
-def m_featcoll_no_fixpoint(d):
-    """feature collections: the parser takes the row ID as feature_collection_id (the written feature_collection_id attribute is
-    ignored) and adds the container's row types to feature_type, so every export/parse cycle changes the feature rows"""
-    if not (d["sig"].startswith("fixpoint-feature-attrs-") and d.get("part") == "feature" and _has_feature_collection(d)):
-        return False
-    if not d.get("keys") or not set(d["keys"]) <= {"feature_collection_id", "feature_type"}:
-        return False
-    obs = {(t, k): set(v) for t, k, v in d["observed"]}
-    exp = {(t, k): set(v) for t, k, v in d["expected"]}
-    for (t, k), v in obs.items():
-        if k == "feature_collection_id":
-            if not all(_UUID.match(x) for x in v):
-                return False
-        elif k == "feature_type":
-            e = exp.get((t, k))
-            if e is not None and not (v >= e and v - e <= {"biological_region", "feature_interval"}):
-                return False
-        else:
-            return False
-    return True
-
-
-def m_featcoll_mixed_strand(d):
-    """a feature collection whose features lie on both strands is written as one biological_region with two feature_interval
-    children; the parser merges the children into one interval and refuses the two strands"""
-    if d["sig"] != "hop1-parse-raises-GFF3ChildParentMismatchError":
-        return False
-    for s in _specs(d):
-        for fc in s.get("feature_collections") or []:
-            if len({f["strand"] for f in fc["feature_intervals"]}) > 1:
-                return True
-    return False
-
-
-def m_unspecified_biotype(d):
-    """gene_type None is written as gene_biotype=unspecified, read back as provided_biotype=unspecified on the gene only; the next
-    export hands that qualifier down to the transcripts, whose digests (row IDs) therefore change once more"""
-    return d["sig"] == "fixpoint-gene-ids-only" and any(g.get("gene_type") is None for s in _specs(d) for g in s.get("genes") or [])
 
 
 def _cds_key(t):
@@ -652,20 +571,22 @@ def m_shared_cds_duplicate_id(d):
     for s in _specs(d):
         keys = [_cds_key(t) for g in s.get("genes") or [] for t in g["transcripts"]]
         keys = [k for k in keys if k is not None]
-        if d["sig"].startswith("F2"):
-            # in the re-parsed collection product/protein id are unchanged, so the same test applies
-            pass
         if len(set(keys)) < len(keys):
             return True
     return False
 
 
-MATCHERS = {
-    "c11_tx_biotype_from_gene": m_tx_biotype_from_gene,
-    "c11_key_not_decoded": m_key_not_decoded,
-    "c11_chunk_fasta_name": m_chunk_fasta_name,
-    "c11_featcoll_no_fixpoint": m_featcoll_no_fixpoint,
-    "c11_featcoll_mixed_strand": m_featcoll_mixed_strand,
-    "c11_unspecified_biotype": m_unspecified_biotype,
-    "c11_shared_cds_duplicate_id": m_shared_cds_duplicate_id,
-}
+MATCHERS = {"c11_shared_cds_duplicate_id": m_shared_cds_duplicate_id}
+
+# Entry for /verif/known_findings.json (not read by the runner; the builder of this check does not edit that file).
+PROPOSED_FINDINGS = [
+    {
+        "id": "C11-shared-cds-duplicate-id",
+        "property": "C11",
+        "status": "known",
+        "matcher": "c11_shared_cds_duplicate_id",
+        "what": "CDS row IDs are '<digest of CDS content>-<i>'; two isoforms with the same CDS (blocks, frames, protein_id, product) therefore write CDS rows with identical IDs but different Parents - IDs are not unique in the file",
+        "minimal_input": "gene with t0 exons [1,2) CDS [1,2) and t1 exons [0,1),[1,2) CDS [1,2), no protein_id: both CDS rows have the same ID",
+        "call_site": "inscripta/biocantor/gene/cds.py CDSInterval.to_gff: id=f'{cds_guid}-{i}'",
+    }
+]
